@@ -1,7 +1,7 @@
 (* C01 - the scheduler never unloads/closes a runner a request is still using; a runner is shut down at most
    once; a runner that has been shut down is never handed to a request.   Theorems only. *)
 From Coq Require Import List ZArith NArith Bool.
-From V Require Import Sched.Lts Sched.Reach Sched.InvClose Sched.InvLock Sched.Thm Sched.Examples.
+From V Require Import Sched.Lts Sched.Reach Sched.InvClose Sched.InvLock Sched.InvRef Sched.Thm Sched.Refute Sched.Examples.
 Import ListNotations.
 
 (* In the event history of ANY run of the scheduler model (any configuration, any number of models and
@@ -26,3 +26,33 @@ Print Assumptions C01_no_grant_closed.
 Example C01_no_grant_closed_nonvacuous :
   fixed cfg_on /\ exists s ev, run cfg_on (init_m 1) ex_load_unload = Some (s, ev) /\ In (EReply 0 (ROk 0 false)) ev.
 Proof. split. reflexivity. vm_compute. eexists; eexists; split. reflexivity. simpl. tauto. Qed.
+
+(* For the repaired scheduler: in every reachable state (any number of models and requests, any interleaving of
+   request arrival, completion / cancellation, load success / failure, ping result, keep-alive expiry, explicit
+   unload and make-room eviction) a runner that has been handed to a request whose context is not cancelled has not
+   been shut down.  Rests on the reference-count invariant of Sched/InvRef.v: refCount(r) = number of requests that
+   hold r and whose finish event has not been consumed + references in flight, and a runner is only shut down at
+   refCount 0 under refMu(r). *)
+Theorem C01_no_close_in_use :
+  forall c m ls s ev q x r y, fixed c -> run c (init_m m) ls = Some (s, ev) ->
+  getq s q = Some x -> q_grant x = Some r -> q_cancelled x = false -> getr s r = Some y -> r_closed y = false.
+Proof. intros c m ls s ev q x r y Hf H. eapply no_close_in_use; eauto. eapply run_Reach; eauto. Qed.
+Print Assumptions C01_no_close_in_use.
+
+Example C01_no_close_in_use_nonvacuous :
+  fixed cfg_on /\ exists s ev x y, run cfg_on (init_m 1) (firstn 10 ex_load_unload) = Some (s, ev) /\
+    getq s 0 = Some x /\ q_grant x = Some 0 /\ q_cancelled x = false /\ getr s 0 = Some y /\ r_closed y = false.
+Proof. split. reflexivity. vm_compute. do 4 eexists. repeat split; reflexivity. Qed.
+
+(* The same statements quantified over ALL configurations, i.e. including the scheduler as it was found
+   (fixes_off), are false: Sched/Refute.v exhibits the runs (they are replayed against the real code from
+   corpus/C01).  [fixed c] is the guard that excludes exactly the unrepaired code. *)
+Definition C01_no_close_in_use_full : Prop := no_close_in_use_full.
+Theorem C01_no_close_in_use_refuted : ~ C01_no_close_in_use_full.
+Proof. exact no_close_in_use_refuted. Qed.
+Print Assumptions C01_no_close_in_use_refuted.
+
+Definition C01_no_grant_closed_full : Prop := no_grant_closed_full.
+Theorem C01_no_grant_closed_refuted : ~ C01_no_grant_closed_full.
+Proof. exact no_grant_closed_refuted. Qed.
+Print Assumptions C01_no_grant_closed_refuted.
